@@ -9,5 +9,5 @@ git -C "$WT" apply "$PATCH"
 cd /verif
 for c in "$@"; do
   echo "=== $c against $PATCH"
-  VERIF_REPO="$WT" ./check "$c" --tier "${VERIF_TIER:-quick}" 2>&1 | grep -E "VIOLATION|KNOWN-FINDING|key=|done:|MACHINERY|DRIFT" | cut -c1-400 | head -12 || true
+  VERIF_SCRATCH_TAG=try$$ VERIF_REPO="$WT" ./check "$c" --tier "${VERIF_TIER:-quick}" 2>&1 | grep -E "VIOLATION|KNOWN-FINDING|key=|done:|MACHINERY|DRIFT" | cut -c1-400 | head -12 || true
 done
